@@ -17,6 +17,7 @@ import (
 	"path/filepath"
 	"sort"
 	"strings"
+	"time"
 
 	"io"
 
@@ -81,6 +82,19 @@ func guard(f func() string) (out string) {
 		}
 	}()
 	return f()
+}
+
+// guardT is guard with a watchdog: a call that does not return within d yields "TIMEOUT"
+// (its goroutine is abandoned).
+func guardT(d time.Duration, f func() string) string {
+	ch := make(chan string, 1)
+	go func() { ch <- guard(f) }()
+	select {
+	case s := <-ch:
+		return s
+	case <-time.After(d):
+		return "TIMEOUT"
+	}
 }
 
 var commands = map[string]func(*Ctx){}
